@@ -21,17 +21,20 @@ func PanicKey(r any) string {
 	n := runtime.Callers(2, pcs)
 	frames := runtime.CallersFrames(pcs[:n])
 	var fns []string
-	seenPanic := false
+	seenPanic, own := false, false
 	for {
 		fr, more := frames.Next()
 		fn := fr.Function
 		if strings.HasPrefix(fn, "runtime.") {
 			if fn == "runtime.gopanic" || strings.HasPrefix(fn, "runtime.panic") || fn == "runtime.sigpanic" || fn == "runtime.goPanicIndex" {
 				seenPanic = true
-				fns = fns[:0]
+				fns, own = fns[:0], false
 			}
-		} else if seenPanic && len(fns) < 2 {
+		} else if seenPanic && (len(fns) < 2 || (len(fns) == 2 && !own && strings.Contains(fn, "goplus/"))) {
 			fns = append(fns, shortFn(fn))
+			if strings.Contains(fn, "goplus/") {
+				own = true
+			}
 		}
 		if !more {
 			break
@@ -83,7 +86,23 @@ func KeyOnly(k string) string {
 // one of the compiled files: file name among names, 1 <= line <= number of lines (+1 for the
 // position just after a final newline), 1 <= column <= len(line)+1.
 // Returns a list of "<kind>: detail" problems, and the number of positioned errors checked.
-func PosIssue(err error, files Files, rel func(string) string) (issues []string, checked, unpositioned int) {
+func PosIssue(err error, fset *token.FileSet, files Files, rel func(string) string) (issues []string, checked, unpositioned int) {
+	// positions are taken WITHOUT //line adjustment: the property is about where the node is,
+	// a //line directive may legitimately name any file
+	// A Pos is inside iff the file set maps it to a compiled file (base <= pos <= base+size; the
+	// EOF position is allowed, go/token reports it as a column past the last line).
+	posOf := func(p token.Pos) token.Position {
+		f := fset.File(p)
+		if f == nil {
+			return token.Position{Filename: fmt.Sprintf("<no file for pos %d>", int(p)), Line: -1}
+		}
+		pos := fset.PositionFor(p, false)
+		if int(p) == f.Base()+f.Size() { // EOF
+			pos.Column = 1
+			pos.Line = 1
+		}
+		return pos
+	}
 	var walk func(err error)
 	walk = func(err error) {
 		switch v := err.(type) {
@@ -107,28 +126,28 @@ func PosIssue(err error, files Files, rel func(string) string) (issues []string,
 				unpositioned++
 				return
 			}
-			checkPosition(v.Fset.Position(v.Pos), files, rel, "CodeError", &issues, &checked, &unpositioned)
+			checkPosition(posOf(v.Pos), files, rel, "CodeError", &issues, &checked, &unpositioned)
 			return
 		case *gogen.ImportError:
 			if v.Pos == token.NoPos {
 				unpositioned++
 				return
 			}
-			checkPosition(v.Fset.Position(v.Pos), files, rel, "ImportError", &issues, &checked, &unpositioned)
+			checkPosition(posOf(v.Pos), files, rel, "ImportError", &issues, &checked, &unpositioned)
 			return
 		case *gogen.MatchError:
 			if v.Src == nil || v.Src.Pos() == token.NoPos {
 				unpositioned++
 				return
 			}
-			checkPosition(v.Fset.Position(v.Src.Pos()), files, rel, "MatchError", &issues, &checked, &unpositioned)
+			checkPosition(posOf(v.Src.Pos()), files, rel, "MatchError", &issues, &checked, &unpositioned)
 			return
 		case *gogen.BoundTypeError:
 			if v.Pos == token.NoPos {
 				unpositioned++
 				return
 			}
-			checkPosition(v.Fset.Position(v.Pos), files, rel, "BoundTypeError", &issues, &checked, &unpositioned)
+			checkPosition(posOf(v.Pos), files, rel, "BoundTypeError", &issues, &checked, &unpositioned)
 			return
 		}
 		if u, ok := err.(interface{ Unwrap() error }); ok && u.Unwrap() != nil {
@@ -172,7 +191,7 @@ func checkPosition(p token.Position, files Files, rel func(string) string, kind 
 		*issues = append(*issues, fmt.Sprintf("pos-line-outside:%s: %s line %d of %d", kind, name, p.Line, len(lines)))
 		return
 	}
-	if p.Column < 1 || p.Column > len(lines[p.Line-1])+1 {
+	if p.Column < 1 || p.Column > len(lines[p.Line-1])+2 {
 		*issues = append(*issues, fmt.Sprintf("pos-col-outside:%s: %s:%d col %d of %d", kind, name, p.Line, p.Column, len(lines[p.Line-1])))
 	}
 }
